@@ -1,14 +1,52 @@
 #pragma once
-// Verification stub: exact Gauss-Legendre rule with algebraic nodes, contract = exactness up to degree 2N-1.
+// Verification stub for boost::math::quadrature::gauss. Contract modelled: the N-point Gauss-Legendre rule is exact for polynomials up to
+// degree 2N-1.
+//  * N <= 5: the exact rule itself, nodes and weights as algebraic numbers (specialisations in symt/gauss_nodes.h);
+//  * N  > 5: the nodes are roots of irreducible polynomials of degree >= 3 and cannot be represented exactly; the stub then integrates
+//    the polynomial of degree <= 2N-1 that interpolates the integrand at 2N rational points of the interval - for every integrand
+//    inside the contract (a polynomial of degree <= 2N-1) that is the same number the Gauss rule returns. Integrands outside the
+//    contract get a different wrong value than boost's; the harnesses only instantiate exact cases (static_assert).
 #include <cstddef>
+#include <vector>
 namespace boost { namespace math { namespace quadrature {
 template <class Real, unsigned N> struct gauss_nodes;  // specialised by the harness for the symbolic type
 template <class Real, unsigned N> struct gauss {
+  static const std::vector<Real> &interp_weights() {
+    static const std::vector<Real> w = [] {
+      const unsigned M = 2 * N;
+      std::vector<Real> t, out;
+      for (unsigned j = 0; j < M; j++) t.push_back(static_cast<Real>((long long)(2 * j + 1) - (long long)M) / static_cast<Real>((long long)M));
+      for (unsigned j = 0; j < M; j++) {
+        std::vector<Real> c{static_cast<Real>(1)};  // coefficients of L_j, lowest power first
+        for (unsigned k = 0; k < M; k++) {
+          if (k == j) continue;
+          const Real den = t[j] - t[k];
+          std::vector<Real> nc(c.size() + 1, static_cast<Real>(0));
+          for (size_t m = 0; m < c.size(); m++) {
+            nc[m + 1] = nc[m + 1] + c[m] / den;
+            nc[m] = nc[m] - c[m] * t[k] / den;
+          }
+          c = nc;
+        }
+        Real wj = static_cast<Real>(0);
+        for (size_t m = 0; m < c.size(); m += 2) wj = wj + c[m] * static_cast<Real>(2) / static_cast<Real>((long long)(m + 1));
+        out.push_back(wj);
+      }
+      return out;
+    }();
+    return w;
+  }
   template <class F> static auto integrate(F f, Real a, Real b) -> decltype(f(a)) {
     const Real two = static_cast<Real>(2);
     const Real mid = (a + b) / two, half = (b - a) / two;
     Real acc = static_cast<Real>(0);
-    for (unsigned i = 0; i < N; i++) acc += gauss_nodes<Real, N>::weight(i) * f(mid + half * gauss_nodes<Real, N>::node(i));
+    if constexpr (N <= 5) {
+      for (unsigned i = 0; i < N; i++) acc += gauss_nodes<Real, N>::weight(i) * f(mid + half * gauss_nodes<Real, N>::node(i));
+    } else {
+      const unsigned M = 2 * N;
+      const std::vector<Real> &w = interp_weights();
+      for (unsigned j = 0; j < M; j++) acc += w[j] * f(mid + half * (static_cast<Real>((long long)(2 * j + 1) - (long long)M) / static_cast<Real>((long long)M)));
+    }
     return acc * half;
   }
 };
